@@ -31,6 +31,9 @@ type TypeOps struct {
 	Unsub func(bus *eventbus.EventBus, env Env, slot int, ctxAware bool) error
 	// Pub publishes the event with the given id; ctx==nil uses Publish.
 	Pub   func(bus *eventbus.EventBus, ctx context.Context, id int)
+	// PubAny publishes the same event through the static type any
+	// (Publish[any]): handlers are found by the dynamic type.
+	PubAny func(bus *eventbus.EventBus, ctx context.Context, id int)
 	Clear func(bus *eventbus.EventBus)
 	Has   func(bus *eventbus.EventBus) bool
 	Count func(bus *eventbus.EventBus) int
@@ -92,6 +95,13 @@ func register[T any](name string, mk func(int) T, idOf func(T) int) {
 			eventbus.Publish(bus, mk(id))
 		} else {
 			eventbus.PublishContext(bus, ctx, mk(id))
+		}
+	}
+	ops.PubAny = func(bus *eventbus.EventBus, ctx context.Context, id int) {
+		if ctx == nil {
+			eventbus.Publish[any](bus, mk(id))
+		} else {
+			eventbus.PublishContext[any](bus, ctx, mk(id))
 		}
 	}
 	ops.Clear = func(bus *eventbus.EventBus) { eventbus.Clear[T](bus) }
